@@ -4,6 +4,7 @@ import (
 	"fmt"
 	"go/token"
 	"go/types"
+	"strings"
 
 	"golang.org/x/tools/go/ssa"
 )
@@ -134,6 +135,10 @@ func runC20(c *Ctx) {
 	c.rule("R20.1", "the consumed-signal channel of the reader wrapper is closed only under one sync.Once")
 	c.rule("R20.2", "upload handler and decoder: lookup-or-create of the hand-off channel in one critical section of the same mutex, keyed by the parsed id; opposite directions; each select watches its context")
 	c.rule("R20.3", "the encoder draws a fresh id per invocation, uploads the caller's reader to a URL derived from it and returns the same id")
+	c.rule("R20.8", "a registered parameter encoder (the reader encoder starts the upload) runs once per argument, before the first transport send; a retry re-sends the request as built")
+	c.encodersRunOnce("R20.8")
+	c.ruleOpt("R20.9", "a counting limit taken in the reader path is given back on every path out of the function")
+	c.countersBalanced("R20.9", p.Httpio.Pkg)
 	c.rule("R20.4", "the upload handler answers 200 (explicitly or implicitly) only after receiving the consumed signal")
 	if !c.need("R20.1", "httpio package", p.Httpio != nil) {
 		return
@@ -967,4 +972,67 @@ func (c *Ctx) shortReadRule(rule string, pkg *types.Package) {
 func isStringType(t types.Type) bool {
 	b, ok := t.Underlying().(*types.Basic)
 	return ok && b.Info()&types.IsString != 0
+}
+
+// countersBalanced: R20.9. A counting limit (atomic add of +k on entry, −k when done) must be given
+// back on every path out of the function that took it — by a direct add or by a defer registered
+// before any return. A slot leaked on one early return (the malformed-id answer) is gone for good:
+// after as many such requests as there are slots every upload is refused and every reader call fails.
+func (c *Ctx) countersBalanced(rule string, pkg *types.Package) {
+	p := c.P
+	isAdd := func(in ssa.Instruction) (ssa.Value, int64, bool) {
+		ci, ok := in.(ssa.CallInstruction)
+		if !ok {
+			return nil, 0, false
+		}
+		nm := calleeName(ci)
+		args := ci.Common().Args
+		if strings.HasPrefix(nm, "sync/atomic.Add") && len(args) == 2 {
+			if k, isK := constInt(stripConvInt(args[1])); isK {
+				return args[0], k, true
+			}
+		}
+		if strings.HasPrefix(nm, "(*sync/atomic.") && strings.HasSuffix(nm, ").Add") && len(args) == 2 {
+			if k, isK := constInt(stripConvInt(args[1])); isK {
+				return args[0], k, true
+			}
+		}
+		return nil, 0, false
+	}
+	n := 0
+	for _, fn := range p.Funcs {
+		if pkg != nil && pkgOf(fn) != pkg {
+			continue
+		}
+		allInstrsRaw(fn, func(in ssa.Instruction) {
+			if _, isDefer := in.(*ssa.Defer); isDefer {
+				return
+			}
+			obj, k, ok := isAdd(in)
+			if !ok || k <= 0 {
+				return
+			}
+			// is there any give-back for this counter in the function at all? (otherwise it is a plain statistic)
+			hasRelease := false
+			release := func(x ssa.Instruction) bool {
+				o2, k2, ok := isAdd(x)
+				return ok && k2 < 0 && sameVal(p.canonVar(obj), p.canonVar(o2))
+			}
+			allInstrsRaw(fn, func(x ssa.Instruction) {
+				if release(x) {
+					hasRelease = true
+				}
+			})
+			if !hasRelease {
+				return
+			}
+			n++
+			construct := fmt.Sprintf("%s: counting limit", fname(fn))
+			ret := reachFrom(in, isReturn, release)
+			c.check(ret == nil, rule, construct, c.ipos(in), "given back on every path (directly or by a defer registered before any return)", "a path returns with the slot still counted (the give-back is deferred only after an early return): every request taking that path loses a slot for good; once all are gone every upload is refused and every call carrying a reader fails")
+		})
+	}
+	if n == 0 {
+		c.ok(rule, "no counting limit", "-", "nothing to balance")
+	}
 }
